@@ -625,7 +625,7 @@ func cmdCheck(args []string) int {
 						engineOK := len(cst.Viol) == 0 && cst.Paths == 1
 						nativeOK := r.Status == "ok"
 						if engineOK != nativeOK || strings.Join(eobs, "\n") != strings.Join(nobs, "\n") {
-							out.inconclusive = append(out.inconclusive, fmt.Sprintf("%s: translator validation mismatch on %s: engine ok=%v%s obs=%v / native status=%s obs=%v", j.Name, describeInputs(cases[i].Inputs), engineOK, engineWhy(cst), eobs, r.Status, nobs))
+							out.inconclusive = append(out.inconclusive, fmt.Sprintf("%s: translator validation mismatch on %s: engine ok=%v%s obs=%v / native status=%s out=%v", j.Name, describeInputs(cases[i].Inputs), engineOK, engineWhy(cst), eobs, r.Status, r.Out))
 						} else {
 							validated++
 							rep.Validated++
